@@ -62,7 +62,7 @@ pub fn prop_cfg(prop: &str, thorough: bool) -> PropCfg {
         "C07" => PropCfg { families: &["kinds"], groups: grp::STR | grp::TREE, sentences: 30 * k, mutations: 60 * k, small_cap: 800 * k, ..base },
         "C08" => PropCfg { groups: grp::STR | grp::TREE | grp::FORMS, padded: true, cuts: 6 * k, sentences: 16 * k, mutations: 24 * k, small_cap: 150 * k, ..base },
         "C09" => PropCfg { groups: grp::ALL, padded: true, sentences: 16 * k, mutations: 40 * k, small_cap: 200 * k, ..base },
-        "C10" => PropCfg { groups: grp::STR | grp::WITH | grp::VALUE, ..base },
+        "C10" => PropCfg { groups: grp::STR | grp::WITH | grp::VALUE | grp::FORMS, padded: true, ..base },
         "C11" => PropCfg { groups: grp::STR | grp::WITH, sentences: 12 * k, mutations: 16 * k, small_cap: 100 * k, ..base },
         "C15" => PropCfg { groups: grp::STR | grp::TREE | grp::TRAVERSAL, ..base },
         "C16" => PropCfg { groups: grp::STR | grp::TREE | grp::GETTERS, ..base },
